@@ -8,6 +8,9 @@ import OFV.Model.C17
 import OFV.Spec.C17
 import OFV.Proofs.C17
 import OFV.Proofs.C17Rdm
+import OFV.Proofs.C17Car
+import Mathlib.Data.Matrix.Mul
+import Mathlib.LinearAlgebra.Matrix.Notation
 
 namespace OFV.C17
 open OFV OFV.Model.C17 OFV.Spec.C17
@@ -201,5 +204,61 @@ theorem one_hole_map_not_transposed_counterexample :
     let D : C2 := fun p q => if p = 0 ∧ q = 1 then ⟨0, 1/2⟩ else if p = 1 ∧ q = 0 then ⟨0, -1/2⟩ else
       if p = q ∧ p < 2 then ⟨1/2, 0⟩ else 0
     oneMinus D 0 1 = ⟨0, -1/2⟩ ∧ delta 0 1 - D 1 0 = ⟨0, 1/2⟩ := by decide +kernel
+
+/-! ## The operator identities behind the formulas (any ring, any representation of the CAR)
+
+The coefficient formulas of the Model (`chemEntry` / `corrEntry`, `twoPdmToPh`, `twoPdmToTwoHole`, `contract`) are
+the term-by-term images of the following identities between ladder operators, valid in every ring containing
+elements `a†_i = ad i`, `a_i = a i` (`i < n`) that satisfy the canonical anticommutation relations — in particular
+for the Jordan–Wigner matrices and for the Fock representation of the Spec.  Taking expectation values `⟨ψ|·|ψ⟩`
+(linear) turns them into the RDM maps; summing them with the coefficients `h_pqrs` gives the chemist reordering.
+The summation / expectation step itself is checked by the oracles, not formalised. -/
+
+open OFV.Car in
+/-- chemist reordering, term level: `a†_p a†_q a_r a_s = a†_p a_s a†_q a_r − δ_qs a†_p a_r`
+(hence `g[p,s,q,r] = h[p,q,r,s]`, i.e. `transpose(h, [0,3,1,2])`, and the one-body correction `−Σ_q g[p,q,q,r]`) -/
+theorem chemist_reorder_term {R : Type} [Ring R] (n : Nat) (ad a : Nat → R) (h : CAR n ad a)
+    (p q r s : Nat) (hp : p < n) (hq : q < n) (hr : r < n) (hs : s < n) :
+    ad p * ad q * a r * a s = ad p * a s * ad q * a r - dl q s * (ad p * a r) :=
+  chemist_reorder h p q r s hp hq hr hs
+
+open OFV.Car in
+/-- `map_two_pdm_to_particle_hole_dm`, term level: `a†_p a_r a†_q a_s = δ_qr a†_p a_s − a†_p a†_q a_r a_s` -/
+theorem particle_hole_term {R : Type} [Ring R] (n : Nat) (ad a : Nat → R) (h : CAR n ad a)
+    (p q r s : Nat) (hq : q < n) (hr : r < n) :
+    ad p * a r * ad q * a s = dl q r * (ad p * a s) - ad p * ad q * a r * a s :=
+  particle_hole h p q r s hq hr
+
+open OFV.Car in
+/-- `map_two_pdm_to_two_hole_dm`, term level, with exactly the three correction terms of the code:
+`a_s a_r a†_q a†_p = a†_p a†_q a_r a_s − (δ_qr a†_p a_s + δ_ps a†_q a_r) + (δ_pr a†_q a_s + δ_qs a†_p a_r)
+ − (δ_qs δ_pr − δ_ps δ_qr)` -/
+theorem two_hole_term {R : Type} [Ring R] (n : Nat) (ad a : Nat → R) (h : CAR n ad a)
+    (p q r s : Nat) (hp : p < n) (hq : q < n) (hr : r < n) (hs : s < n) :
+    a s * a r * ad q * ad p =
+      ad p * ad q * a r * a s - (dl q r * (ad p * a s) + dl p s * (ad q * a r))
+        + (dl p r * (ad q * a s) + dl q s * (ad p * a r)) - (dl q s * dl p r - dl p s * dl q r) :=
+  two_hole h p q r s hp hq hr hs
+
+open OFV.Car in
+/-- `map_two_pdm_to_one_pdm`, term level: `a†_p a†_r a_r a_q = a†_p a_q (a†_r a_r) − δ_rq a†_p a_r`; summed over `r`
+this is `a†_p a_q (N̂ − 1)`, which on an `N`-particle state is `(N − 1) a†_p a_q` — the divisor of the code -/
+theorem contraction_identity_term {R : Type} [Ring R] (n : Nat) (ad a : Nat → R) (h : CAR n ad a)
+    (p q r : Nat) (hq : q < n) (hr : r < n) :
+    ad p * ad r * a r * a q = ad p * a q * (ad r * a r) - dl r q * (ad p * a r) :=
+  contraction_term h p q r hq hr
+
+-- non-vacuity: one fermionic mode as 2 × 2 integer matrices satisfies the CAR for n = 1
+open OFV.Car Matrix in
+example : CAR 1 (fun _ => (!![0, 0; 1, 0] : Matrix (Fin 2) (Fin 2) ℤ)) (fun _ => !![0, 1; 0, 0]) := by
+  refine ⟨?_, ?_, ?_⟩
+  · intro i j _ _; decide
+  · intro i j _ _; decide
+  · intro i j hi hj
+    have : i = 0 := by omega
+    have : j = 0 := by omega
+    subst_vars
+    simp only [dl, if_true]
+    decide
 
 end OFV.C17
